@@ -818,7 +818,154 @@ def _reserved_names(ctx, model, ce, compile_fn):
            {"predefined": sorted({k for k, _, _ in entries})})
 
 
+def _judge_compile(model, ce, mem):
+    """_compile interpreted with the dependency mapper, the source printer and
+    eval() as hooks: the text handed to eval is
+    'lambda <listed variables, then the other free variables by name, without
+    the names of the evaluation context>: <what the source printer wrote at
+    PREC_NONE>', evaluated in a context that has math (and numpy).
+    -> witnesses"""
+    from ..absint import Interp, Obj, Opaque, Raised, StepBound, module_env
+
+    class V:
+        """a variable node: equal to the variables of its name"""
+
+        def __init__(self, name):
+            self.name = name
+
+        def __eq__(self, o):
+            return isinstance(o, V) and o.name == self.name
+
+        def __hash__(self):
+            return hash(self.name)
+
+        def __str__(self):
+            return self.name
+
+        def __repr__(self):
+            return f"Variable({self.name!r})"
+    glob = module_env(ce.module.tree, {})
+
+    def resolve(cls, nm):
+        if cls == "CompiledExpression":
+            m_ = model.lookup(ce, nm)
+            if m_ is not None and m_.kind == "func":
+                return ("func", m_.node)
+        return None
+    wit = []
+    for listed, want in ((["x", V("y")], "lambda x,y,a,b: SRC"),
+                         ([], "lambda a,b,x: SRC"),
+                         (["b"], "lambda b,a,x: SRC")):
+        seen = {}
+
+        def mkvar(it, nd, a, k):
+            return a[0] if isinstance(a[0], V) else V(a[0])
+
+        def depmapper(it, nd, a, k):
+            if k.get("composite_leaves") is not False and not (
+                    k.get("include_subscripts") is False and
+                    k.get("include_lookups") is False):
+                raise AnalysisError("dependency mapper with composite leaves")
+            return lambda e: {V("x"), V("b"), V("a"), V("math")}
+
+        def printer(it, nd, a, k):
+            def pr(e, prec=None, *a2):
+                seen["prec"] = prec
+                return "SRC"
+            return pr
+
+        def ev(it, nd, a, k):
+            seen["text"] = a[0]
+            seen["ctx"] = a[1] if len(a) > 1 else None
+            return "CODE"
+        calls = {"DependencyMapper": depmapper, "CompileMapper": printer,
+                 "eval": ev, "str": lambda it_, nd, a, k: str(a[0])}
+        for pre in ("", "primi.", "primitives.", "pymbolic.", "p.",
+                    "pymbolic.primitives."):
+            calls[pre + "make_variable"] = mkvar
+            calls[pre + "var"] = mkvar
+            calls[pre + "Variable"] = mkvar
+
+        class _I(Interp):
+            def stmt(self, st, env):
+                if isinstance(st, (ast.Import, ast.ImportFrom)):
+                    for al in st.names:
+                        env[(al.asname or al.name).split(".")[0]] = Opaque(
+                            "module " + al.name)
+                    return
+                return Interp.stmt(self, st, env)
+        it = _I(calls=calls, resolve=resolve, globals_=dict(
+            glob, PREC_NONE="PREC_NONE", math=Opaque("module math")),
+            attrs=lambda it_, n_, b, at: (
+                getattr(b, at) if isinstance(b, V) and at == "name"
+                else Opaque(ast.unparse(n_))), max_steps=20000)
+        me = Obj("CompiledExpression", {})
+        label = f"variables listed: {[str(v) for v in listed]}"
+        try:
+            it.call_function(mem.node, [me, "EXPR", list(listed)],
+                             dict(it.globals))
+        except Raised as r:
+            wit.append(f"{label}: raises at line "
+                       f"{getattr(r.node, 'lineno', '?')}")
+            continue
+        except StepBound:
+            wit.append(f"{label}: does not terminate")
+            continue
+        text = seen.get("text")
+        if not isinstance(text, str):
+            wit.append(f"{label}: nothing is handed to eval()")
+            continue
+        norm = lambda t: t.replace(" ", "")      # noqa: E731
+        if norm(text) != norm(want):
+            wit.append(f"{label}: compiles {text!r}, expected {want!r} (free "
+                       "variables a, b, x and the context name math)")
+        elif seen.get("prec") != "PREC_NONE":
+            wit.append(f"{label}: the source is written at precedence "
+                       f"{seen.get('prec')!r}, not PREC_NONE")
+        elif not (isinstance(seen.get("ctx"), dict) and "math" in seen["ctx"]):
+            wit.append(f"{label}: the text is evaluated without the context "
+                       "that holds math")
+    return wit
+
+
 def _compile(ctx, model):
+    ce = model.cls(f"{COMP}:CompiledExpression")
+    mem = ce.members.get("_compile")
+    if mem is None or mem.kind != "func":
+        raise AnalysisError("CompiledExpression._compile not found")
+    cwit = None
+    try:
+        cwit = _judge_compile(model, ce, mem)
+    except AnalysisError as e:
+        ctx.extra["judge_unavailable:CompiledExpression._compile"] = str(e)
+    if cwit is not None:
+        ctx.ob("P0/compile/signature-semantics", not cwit, where(mem),
+               "_compile interpreted on three variable lists: listed "
+               "variables first, the other free variables by name, context "
+               "names left out; source from the printer at PREC_NONE; evaluated "
+               "with math in scope" if not cwit else
+               "CompiledExpression._compile: " + "; ".join(cwit[:2]))
+    mark = len(ctx.obs)
+    try:
+        _compile_structural(ctx, model)
+    except AnalysisError:
+        if cwit is None or cwit:
+            raise
+    if cwit is not None and not cwit:
+        for o in ctx.obs[mark:]:
+            if not o.ok and o.key in (
+                    "P/compile/lambda-text", "P/compile/listed-variables-first",
+                    "P/compile/excludes-listed-and-context",
+                    "P/compile/source-from-compile-mapper",
+                    "P/compile/sorted-by-name",
+                    "T/compile/free-variables-are-variables"):
+                o.ok = True
+                o.what = "[shape not recognised; decided by interpreting " \
+                    "_compile] " + o.what
+                o.nontrivial = False
+
+
+def _compile_structural(ctx, model):
     ce = model.cls(f"{COMP}:CompiledExpression")
     mem = ce.members.get("_compile")
     if mem is None or mem.kind != "func":
